@@ -2,6 +2,7 @@
 import os
 import vlib, bufgen
 import flagslib as F
+import C03 as C03mod
 
 MODULE = "RbModel.Props.C04"
 LEVEL = "proof"
@@ -106,6 +107,21 @@ def shape_hygiene(ctx, shim, r, per_font, pc, pt, fonts=None):
 
 
 # ------------------------------------------------------------------------------------------------
+# shape level (3): the UNSAFE_TO_CONCAT redistribution experiment
+
+CONCAT_RULE = ("corpus fonts x (fixture texts, shuffles, slices, alphabet resamples; cluster numbering identity / strictly increasing "
+               "with gaps / 1 in 8 with repeats) x 5 direction settings x levels 0/1 x feature toggles, PRODUCE_UNSAFE_TO_CONCAT "
+               "requested (with and without the tatweel flag); whole text shaped, segmented at ALL cluster starts whose glyph lacks "
+               "UNSAFE_TO_CONCAT, even segments -> one text, odd segments -> another (same settings, same cluster numbers), both "
+               "shaped, every segment's glyphs taken back by cluster ownership and interleaved in visual order; segment order, gids, "
+               "clusters, advances, offsets compared with the whole; non-trivial = at least two segments")
+
+
+def concat_search(ctx, shim, r, per_font, pc, pt, only_aat, name):
+    C03mod.metamorphic_search(ctx, shim, r, per_font, pc, pt, only_aat, name, F.verify_concat, [pc, pc, pc | pt],
+                              "redistributing UNSAFE_TO_CONCAT-free segments changes the result",
+                              ("AAT fonts: " if only_aat else "OpenType path: ") + CONCAT_RULE)
+
 
 def run(ctx):
     ctx.assumptions += [
@@ -127,6 +143,8 @@ def run(ctx):
                    classify=F.classify_walk, canon=F.canon_panic)
     hook_search(ctx, shim, ctx.rng("hook"), ctx.budget(20000, 300000), pc, pt)
     shape_hygiene(ctx, shim, ctx.rng("hygiene"), ctx.budget(24, 400), pc, pt)
+    concat_search(ctx, shim, ctx.rng("concat-ot"), ctx.budget(20, 300), pc, pt, False, "concat-redistribution-ot")
+    concat_search(ctx, shim, ctx.rng("concat-aat"), ctx.budget(30, 600), pc, pt, True, "concat-redistribution-aat")
 
 
 def replay(ctx, rp):
@@ -139,6 +157,17 @@ def replay(ctx, rp):
         dev = F.hygiene(gl, want["PRODUCE_UNSAFE_TO_CONCAT"], want["PRODUCE_SAFE_TO_INSERT_TATWEEL"]) if gl else [("crash", o)]
         for k, d in dev: print("deviation:", k, d)
         return 1 if dev else 0
+    if rp.get("stream", "").startswith("concat-redistribution"):
+        s = F.shaping_from_replay(rp)
+        o = F.verify_concat(shim, [s])[0]
+        print("request:", s.line)
+        print("status :", o["status"], " segments (text ranges, logical order):", o.get("pieces"))
+        for q, a in zip(o.get("piece_requests") or [], o.get("piece_replies") or []):
+            print("  part :", q); print("       ", a)
+        print("whole  :", F.fmt_glyphs(o.get("whole") or []))
+        print("reassembled:", F.fmt_glyphs(o.get("recon") or []))
+        print("difference:", o.get("diff"))
+        return 1 if o["status"] in ("DIFF", "piecefail", "noresult") else 0
     if rp.get("stream") == "flags-hook-hygiene":
         b = dict(F.constants(shim)[1])
         o = vlib.run_lines(shim, [rp["request"]], nproc=1)[0]
